@@ -53,6 +53,16 @@ def deletions(rnd, lines, quick):
     het = [i for i in atoms if lines[i].startswith("HETATM")]
     if het:
         out.append(("ligand atoms", rnd.sample(het, max(1, len(het) // 3))))
+        # single ligand atoms: removing one can change the hybridisation the typing assigns to its neighbour - in particular
+        # next to a short bond (a carbon left with two neighbours, one closer than 1.25 A, is typed sp)
+        xyz = {i: pdbgen.coords(lines[i]) for i in het}
+        d = lambda a, b: sum((p - q) ** 2 for p, q in zip(xyz[a], xyz[b])) ** 0.5
+        near = {i: [j for j in het if j != i and d(i, j) < 2.0] for i in het}
+        hot = sorted({x for c in het if lines[c][12:14].strip(" 0123456789")[:1] == "C" and any(d(c, j) < 1.25 for j in near[c]) for x in near[c]})
+        for i in (hot if (not quick or len(hot) <= 16) else rnd.sample(hot, 16)):
+            out.append(("ligand atom next to a short bond " + lines[i][12:20], [i]))
+        for i in rnd.sample(het, min(len(het), 4 if quick else 60)):
+            out.append(("ligand atom " + lines[i][12:20], [i]))
     for frac in (0.01, 0.1, 0.3, 0.6):
         out.append(("random %d%%" % int(frac * 100), rnd.sample(atoms, max(1, int(len(atoms) * frac)))))
     return [(k, sorted(set(d))) for k, d in out if d]
@@ -69,7 +79,9 @@ def run(ctx):
     for i in range(5 if ctx.quick() else 40):
         lines, ids = pdbgen.multichain(rnd, nchains=rnd.randint(1, 2), separation=20.0)
         if i % 2 == 0:
-            lines += rnd.choice(hets)[2]
+            # every tier sees methotrexate (carboxylates with C-O bonds below 1.2 A) at least once
+            mtx = [h for h in hets if h[1][3] == "MTX"]
+            lines += (mtx[0] if i == 0 and mtx else rnd.choice(hets))[2]
         inputs.append(("gen%d" % i, pdbgen.text(lines)))
     crash, census_bad = [], []
     reqs, reals = [], []
